@@ -144,6 +144,13 @@ def run(ctx):
                         cases.append(c)
         for bad in ("V", "t", ""):
             cases.append({"fn": "c2p", "p": [hexf(1.0), hexf(2.0)], "kind": bad, "fam": "int", "mode": "badkind", "timeout": 60})
+    for c in (cases if ctx.replay is None else []):      # input containers: ndarray (default), Python list, integer ndarray for integer-valued data
+        if c.get("fn") in ("p2l", "ptlf") and not c.get("complex"):
+            k = rng.random()
+            if k < 0.25:
+                c["as_list"] = True
+            elif k < 0.45 and c.get("fam") == "int":
+                c["as_int"] = True
     impl = run_impl(cases, timeout=3000)
 
     def parts(c):
